@@ -6,6 +6,7 @@
 
 #include "Z/Impedance.hpp"
 
+#include <algorithm>
 #include <fstream>
 #include <iostream>
 #include <limits>
@@ -66,7 +67,9 @@ vfps::Impedance &vfps::Impedance::operator=(vfps::Impedance other)
 
 vfps::Impedance &vfps::Impedance::operator+=(const vfps::Impedance &rhs)
 {
-    for (size_t i=0; i<_nfreqs; i++) {
+    // rhs may be shorter (e.g. read from a file): missing values count as zero
+    const size_t n = std::min(_nfreqs,rhs._data.size());
+    for (size_t i=0; i<n; i++) {
         _data[i] += rhs._data[i];
     }
     #if INOVESA_USE_OPENCL == 1
@@ -100,8 +103,7 @@ std::vector<vfps::impedance_t> vfps::Impedance::readData(std::string fname)
     frequency_t real;
     frequency_t imag;
 
-    while(is.good()) {
-        is >> lineno >> real >> imag;
+    while(is >> lineno >> real >> imag) {
         if (lineno != old_lineno) {
             rv.push_back(impedance_t(real,imag));
         }
